@@ -30,7 +30,8 @@ func runC04(c *Ctx) {
 	c.Rule("C04.O", "the dedup LRU is owned by the polling goroutine", 1)
 	c.Rule("C04.N", "dedup window ≥ 1000", 1)
 	c.Rule("C04.F", "a worker forwards once", 7)
-	c.Rule("C04.P", "the proxy offers each ID exactly once and loses none", 6)
+	c.Rule("C04.P", "the proxy offers each ID exactly once and loses none", 7)
+	ruleNoServerDeadlines(c, p, "C04.P")
 
 	const lruGet = "(*github.com/golang/groupcache/lru.Cache).Get"
 	const lruAdd = "(*github.com/golang/groupcache/lru.Cache).Add"
